@@ -97,6 +97,11 @@ inductive Elem4
   | plug (c : Plug.Cfg4)
   /-- `file` with the table it serves: hardware address (bytes) ↦ address -/
   | file (t : FTable)
+  /-- `range`, as far as one datagram is concerned: what its lease table and allocator answer for
+  this client — the address and the value of option 51 (`RReply.reply` of Model/Range.lean), or
+  `none` when no address is left (the handler returns a nil response and ends the chain). The
+  state machine behind it is Model/Range.lean; the driver threads its state. -/
+  | lease (out : Option (BitVec 32 × Nat))
 deriving Repr
 
 def viewReq4 (r : Req4) : Plug.ReqView4 := ⟨r.op, mtOf r.opts, r.siaddr, r.ciaddr, r.opts⟩
@@ -116,6 +121,8 @@ def handle4 : Elem4 → Req4 → Option Resp4 → Option Resp4 × Bool
     match t.get req.chaddr with
     | some (.v4 a) => (some { r with yiaddr := be4 a }, true)
     | _ => (some r, false)
+  | .lease none, _, some _ => (none, true)
+  | .lease (some (ip, o51)), _, some r => (some { r with yiaddr := be4 ip, opts := upd4 51 (Plug.be 4 o51) r.opts }, false)
 
 /-- built-in DHCPv4 plugins whose handler never ends the chain and never drops the request -/
 def neverStops4 : Elem4 → Bool
